@@ -1,9 +1,8 @@
 """C06: pyoak.tree.Tree -- construction of the two tables and the upward queries.
 
-Abstraction: the tables are maps keyed by node *objects* (identity).  Python keys them by
-hash(id) / ==; the two coincide for every queried node except an unregistered foreign twin of a
-member (known finding KF-C06-foreign-twin, excluded by the hypothesis of this area and replayed
-natively by the check).
+The tables are dicts keyed by id(node); id() is modelled as the object itself used as key (injective on
+live objects; the tree keeps its members alive).  Before fix deaeaff the keys were the nodes themselves
+(hash(id) / ==), which answered for foreign twins of members -- witness findings/f15, re-run by the check.
 
 Ghost view of a Tree: T_root, T_pinfo : Ref -> Opt[ParentInfo], T_xpath : Ref -> Opt[str].
   pfold(s)            = left fold of the dfs stream s storing ParentInfo(x.parent, x.field, x.findex) under x.node
